@@ -260,6 +260,7 @@ class Engine:
                     m = re.match(r'<<"REPLAY", "(.*)">>$', l)
                     js = m.group(1).replace('\\"', '"').replace("\\\\", "\\")
                     d = json.loads(js)
+                    d.update(fam.get("with", {}))
                     d.setdefault("id", "%s-%d" % (fam["gen"][1]["name"], i))
                     f.write(json.dumps(d) + "\n")
         elif fam["gen"][0] == "file":
